@@ -180,13 +180,14 @@ example : flagAfter [⟨0, true⟩, ⟨5, true⟩] = true ∧ flagAfter [⟨0, t
   decide
 
 /-- **the lease routine of the current source is the one modelled**: the clause of `(*worker).Start` that
-calls `LeaseTable`, read with go/parser on every run - the request with four lease intervals, then the
+calls `LeaseTable`, read with go/parser on every run (the function's own identifiers renamed in order of declaration: x1 = the
+worker, x3 = err, x4 = prev) - the request with four lease intervals, then the
 flag set on `err == nil` and cleared on EVERY other outcome, nothing in between - and the uses of the
 flag in the function: the two swaps and the one load that gates the replication routine -/
 theorem c15_worker_lease_clause_matches_source :
     Regatta.Extracted.workerLeaseClause =
-      "err := w.engine.LeaseTable(w.table, w.leaseInterval*4) ; if err == nil { prev := w.leased.Swap(true) if !prev { w.metrics.replicationLeased.Set(1) } } else { prev := w.leased.Swap(false) if prev { w.metrics.replicationLeased.Set(0) } } ; " ∧
-    Regatta.Extracted.workerLeasedUses = ["w.leased.Swap(true)", "w.leased.Swap(false)", "w.leased.Load()"] :=
+      "x3 := x1.engine.LeaseTable(x1.table, x1.leaseInterval*4) ; if x3 == nil { x4 := x1.leased.Swap(true) if !x4 { x1.metrics.replicationLeased.Set(1) } } else { x4 := x1.leased.Swap(false) if x4 { x1.metrics.replicationLeased.Set(0) } } ; " ∧
+    Regatta.Extracted.workerLeasedUses = ["x1.leased.Swap(true)", "x1.leased.Swap(false)", "x1.leased.Load()"] :=
   ⟨rfl, rfl⟩
 
 end Regatta.Props.C15
